@@ -21,7 +21,7 @@ ASSUMPTIONS = ["reference day for a text is vf/refcal.py", "ummulqura oracle = o
 
 SPECS = SP.DATE_SPECS
 CALS = ["ymd", "ymcw", "ywd", "yd", "ldn", "mdn", "jdn"]
-CAL_F = {"ymd": "%F", "ymcw": "ymcw", "ywd": "ywd", "yd": "yd", "ldn": "ldn", "mdn": "mdn",
+CAL_F = {"ymd": "ymd", "ymcw": "ymcw", "ywd": "ywd", "yd": "yd", "ldn": "ldn", "mdn": "mdn",
          "jdn": "jdn", "hijri": "hijri"}
 CAL_I = {"ymd": [], "ymcw": [], "ywd": [], "yd": [], "ldn": ["-i", "ldn"], "mdn": ["-i", "mdn"],
          "jdn": ["-i", "jdn"], "hijri": ["-i", "hijri"]}
@@ -191,7 +191,8 @@ def toolrep(ctx, shard, nshards):
     if not ctx.thorough:
         rnd = random.Random(ctx.sub_seed("toolrep", shard))
         days = sorted(rnd.sample(days, min(len(days), 3000)))
-    days = [n for n in days if 8 <= n <= R.NMAX - 8]
+    # dround / dseq go through day numbers internally: keep clear of the last 606 days (finding of C01)
+    days = [n for n in days if 8 <= n <= 910675 - 10]
     Bset = set(boundary())
     # reference: dconv on ymd text
     ymd = [R.f_ymd(n) for n in days]
